@@ -136,11 +136,75 @@ def judge(r, iface, name, res, fault, expect_exc=None):
     return True
 
 
+def hostile_headers(r):
+    """Header values/names with CR, LF or NUL through every mutation path: either rejected at the mutation or never emitted."""
+    bad_values = ["a\rb", "a\nb", "a\0b", "x\r\nset-cookie: evil=1"]
+    paths = {
+        "setitem-new": lambda h, v: h.__setitem__("x-new", v),
+        "setitem-existing": lambda h, v: h.__setitem__("x-old", v),
+        "append-new": lambda h, v: h.append("x-new", v),
+        "append-existing": lambda h, v: h.append("x-old", v),
+        "append-existing-other-case": lambda h, v: h.append("X-Old", v),
+        "update-map": lambda h, v: h.update({"x-old": v}),
+        "update-pairs": lambda h, v: h.update([("x-new", v)]),
+        "setdefault-new": lambda h, v: h.setdefault("x-new", v),
+        "name-setitem": lambda h, v: h.__setitem__(v, "ok"),
+        "name-append": lambda h, v: h.append(v, "ok"),
+    }
+    for iface in ("wsgi", "asgi"):
+        m = mod_for(iface)
+        for (pname, fn), v in itertools.product(paths.items(), bad_values):
+            for cls in ("text", "stream"):
+                resp = m.PlainTextResponse("x", headers={"x-old": "1"}) if cls == "text" else build_stream(iface, "stream", 1, None)
+                if cls == "stream":
+                    resp.headers["x-old"] = "1"
+                rejected = False
+                try:
+                    fn(resp.headers, v)
+                except ValueError:
+                    rejected = True
+                res = call(iface, resp)
+                name = f"hostile header via {pname} value {v!r} on {cls}"
+                r.count("evaluations")
+                r.count("distinct_nontrivial")
+                probs = protocol_problems(iface, res, res.exc is None)
+                if iface == "asgi":
+                    for k, val in res.headers:
+                        if any(c in k + val for c in "\r\n\0"):
+                            probs.append(f"header {k!r}: {val!r} contains a control character")
+                if res.exc is not None:
+                    probs.append(f"emission raised {res.exc!r:.80}")
+                if probs:
+                    r.violation(f"protocol:{iface}:control-character-emitted", {"iface": iface, "recipe": name, "fault": None}, f"{iface} {name} (rejected at mutation: {rejected}): {probs[0]}")
+    r.sample({"recipe": "headers.append('x-old', 'a\\r\\nset-cookie: evil=1') on an existing key"})
+
+
+def wsgi_pings(r, tier):
+    """WSGI event stream with ping timeouts (controlled-thread engine shared with C06): every yielded item must be bytes and
+    start_response must have been called once before the first item."""
+    from . import c06
+
+    for n, timeouts in ((0, 1), (1, 1), (1, 2), (2, 1)):
+        def on_exec(x):
+            r.count("evaluations")
+            r.count("traces")
+            r.count("distinct_nontrivial")
+            o = x.obs
+            bad = [it for it in o["got"] if not isinstance(it, bytes)]
+            if bad or o["start_calls"] != 1:
+                r.violation("protocol:wsgi:ping-item", {"iface": "wsgi", "recipe": f"sse n={n} with {timeouts} ping timeout(s)", "fault": None, "schedule": list(x.choices)},
+                            f"WSGI SendEventResponse with ping timeouts, schedule {o['trace'][-10:]}: yielded {bad[:1]!r} (start_response calls: {o['start_calls']})")
+        dfs(lambda prefix: c06.run_wsgi_sse(prefix, n, None, None, False, timeouts), on_exec, bound=1)
+    r.sample({"recipe": "WSGI sse with ping timeouts on controlled threads, preemption bound 1"})
+
+
 def shards(tier, seed):
     out = [("small", iface, k, 8) for iface in ("wsgi", "asgi") for k in range(8)]
     out += [("streams", iface) for iface in ("wsgi", "asgi")]
     out += [("files", iface) for iface in ("wsgi", "asgi", "zerocopy")]
     out += [("disconnect", k, 6) for k in range(6)]
+    out.append(("hostile_headers",))
+    out.append(("wsgi_pings",))
     return out
 
 
@@ -198,8 +262,8 @@ def run_shard(desc, tier):
             p = os.path.join(d, "data.bin")
             with open(p, "wb") as f:
                 f.write(bytes(range(10)))
-            ranges = [None, "bytes=0-3", "bytes=0-0,5-6", "bytes=5-4", "bytes=20-", "nonsense", "bytes=-0", "bytes=0-2,20-"]
-            for dn, rng, method, chunk in itertools.product(NAMES, ranges, ("GET", "HEAD"), (None, 3)):
+            ranges = [None, "bytes=0-3", "bytes=0-5", "bytes=2-9", "bytes=0-0,5-6", "bytes=0-3,6-9", "bytes=5-4", "bytes=20-", "nonsense", "bytes=-0", "bytes=0-2,20-"]
+            for dn, rng, method, chunk in itertools.product(NAMES, ranges, ("GET", "HEAD"), (None, 1, 2, 3, 4)):
                 name = f"file download_name={dn!r} range={rng!r} {method} chunk={chunk}"
                 headers = [("Range", rng)] if rng else []
 
@@ -222,6 +286,10 @@ def run_shard(desc, tier):
             r.sample({"iface": iface0, "recipe": "file download_name='中.txt' range='bytes=0-0,5-6'", "fault": "send() fails at call 3"})
         finally:
             shutil.rmtree(d, ignore_errors=True)
+    elif desc[0] == "hostile_headers":
+        hostile_headers(r)
+    elif desc[0] == "wsgi_pings":
+        wsgi_pings(r, tier)
     else:
         # disconnect at every position: all interleavings of the ASGI streaming drivers (shared with C06), judged by the monitor only
         from . import c06
